@@ -353,6 +353,12 @@ def check_binding(ctx, cname, init, params, p, idx, attr, value):
     if isinstance(v, ast.Name) and v.id in params:
         # the wrapped object itself / the explicit function
         if v.id == "el":
+            # a callable element is a function of one value: it can stand for a call-like attribute, never for a
+            # flow-level protocol method (run/fill/compute/request/fill_into take a flow, a value to store, or nothing)
+            ctx.check("C05-a", canonical(attr) in ("__call__", "_call", "call"), value, "%s binds its `%s` to the wrapped element itself "
+                      "[%s]: a callable element maps one value to one value, it is not a %s method -- it has to be driven by the "
+                      "adapter's own per-value wrapper" % (cname, attr, p.describe(3), canonical(attr)),
+                      detail="%s: the element itself only stands for a call" % cname, construct="bind-el-as:%s:%s" % (cname, attr), path=p)
             needs_no_name("the element itself")
             g = any(pol and A.src(t) == "callable(el)" for t, pol in lits)
             ctx.check("C05-a", g, value, "%s binds `%s` to the element itself without testing callable(el) [%s]" % (cname, attr, p.describe(3)),
@@ -457,7 +463,25 @@ def check_wrappers(ctx):
     fn = ctx.tree.func(AD, "FillInto._run_fill_into")
     ps = [p for p in A.func_params(fn) if p != "self"]
     loops = [l for l in A.body_wo_doc(fn) if isinstance(l, ast.For)]
-    if ctx.require(len(loops) == 1 and len(ps) == 2, "C05-b", fn, "FillInto._run_fill_into: expected one loop over the results"):
+    # the results of run([value]) taken one at a time with next(): only a prefix of them can reach the element
+    from ..lazy import FlowAnalyser
+    runs = [c for c in A.walk_local(fn) if isinstance(c, ast.Call) and A.src(c.func) == "self._el.run"]
+    views = set()
+    for st in A.walk_local(fn):
+        if isinstance(st, ast.Assign) and len(st.targets) == 1 and isinstance(st.targets[0], ast.Name):
+            v = st.value
+            while isinstance(v, ast.Call) and A.call_name(v) in ("iter", "flow_to_iter") and v.args:
+                v = v.args[0]
+            if v in runs or (isinstance(v, ast.Name) and v.id in views):
+                views.add(st.targets[0].id)
+    pulled_once = [c for c in A.walk_local(fn) if isinstance(c, ast.Call) and ctx.res.call_canon(c) == "builtins.next" and c.args
+                   and (A.root_name(c.args[0]) in views or c.args[0] in runs or
+                        (isinstance(c.args[0], ast.Call) and c.args[0].args and c.args[0].args[0] in runs))]
+    if pulled_once and not any(A.enclosing(c, (ast.For, ast.While)) is not None for c in pulled_once):
+        ctx.violation("C05-b", pulled_once[0], "FillInto._run_fill_into takes the results of run([value]) with `%s` outside any loop: only "
+                      "the first result of the run element reaches the filled element, the others are dropped -- the chain gives other "
+                      "results when filled than when run" % A.short(pulled_once[0], 40), construct="run-fill-into-first-only")
+    elif ctx.require(len(loops) == 1 and len(ps) == 2, "C05-b", fn, "FillInto._run_fill_into: expected one loop over the results"):
         l = loops[0]
         ok = A.src(l.iter) == "self._el.run([%s])" % ps[1]
         ctx.check("C05-b", ok, l, "FillInto._run_fill_into iterates `%s`, not the run of a flow consisting of this one value" % A.short(l.iter, 50),
@@ -867,6 +891,8 @@ def check(ctx):
 
 ADP = "lena/core/adapters.py"
 VARIANTS = [
+    M("runfillinto-next-only", "lena/core/adapters.py", "        for result in self._el.run([value]):\n            element.fill(result)", "        results = iter(self._el.run([value]))\n        try:\n            result = next(results)\n        except StopIteration:\n            return\n        element.fill(result)", ["C05-b"]),
+    M("run-binds-generator-function", "lena/core/adapters.py", "            elif callable(el):\n                # Call to Run\n                self.run = self._call_run", "            elif callable(el):\n                if inspect.isgeneratorfunction(el):\n                    self.run = el\n                else:\n                    self.run = self._call_run", ["C05-a"]),
     M("fillcompute-stub-left", ADP, "        if callable(fill_method):\n            self.fill = fill_method\n        else:", "        if callable(fill_method):\n            pass\n        else:", ["C05-a"]),
     M("fillcompute-wrong-name", ADP, "        fill_method = getattr(el, fill, None)\n        compute_method = getattr(el, compute, None)", "        fill_method = getattr(el, fill, None)\n        compute_method = getattr(el, fill, None)", ["C05-a"]),
     M("initcallable-ignores-name", ADP, "    if call is _SENTINEL:\n        # try to find call in el\n        if callable(el):\n            self._call = el  # pylint: disable=protected-access\n        else:\n            raise exceptions.LenaTypeError(\n                \"provide a callable method or a callable element, \"\n                \"{} given\".format(el)\n            )\n    else:",
